@@ -276,3 +276,5 @@ def run(chk, F):
     chk.run_rule("C12.young", "BlockEngine::enqueue: Age::Young returns before sequence allocation and submit", 3, young, F)
     chk.run_rule("C12.probation-lifecycle", "the reclaim mark is per block generation: set by pickers, read into the entry's age, cleared by reset (which covers every field) on reclaim", 6, probation_lifecycle, F)
     chk.run_rule("C12.phantom", "filter rejection / OnDisk advice make the record a phantom; its last drop pipes it and skips release", 3, phantom, F)
+    from rules import mustcall
+    mustcall.run_for(chk, F, "C12")
